@@ -68,6 +68,7 @@ let veto0_pred r = (r mod 3) <> 0
 let throw_pred r b e = ((r * 5 + b * 7 + e * 3) mod 5) = 0
 let ipred b e = ((b * 3 + e * 5) mod 3) <> 0
 let ithrow b e = ((b + e) mod 4) = 3
+let ipred3 b e = ((b + e) mod 2) <> 0
 
 type beh = BNone | BApplyVoid | BApply0Void | BApplyBool | BApply0Bool | BThrowStd | BThrowForeign | BMatch of mkind
 
@@ -267,6 +268,7 @@ let () =
                   match int_of_nat a with
                   | 1 -> ARet (ipred bb eb)
                   | 2 -> if ithrow bb eb then AThrow N0 else ARet true
+                  | 3 -> ARet (ipred3 bb eb)
                   | 12 -> ARet false
                   | 13 -> AThrow N0
                   | _ -> ARet true);
